@@ -111,7 +111,11 @@ func Mapping(args []string) error {
 			default:
 				ok = s.env(st)
 			}
-			s.w.Emit(trace.M{"e": "Step", "a": st.A, "i": st.I, "applied": ok})
+			sel := st.Sel
+			if sel == nil {
+				sel = []int{}
+			}
+			s.w.Emit(trace.M{"e": "Step", "a": st.A, "i": st.I, "sel": sel, "applied": ok, "during": false})
 			if !ok {
 				skipped++
 			}
